@@ -108,9 +108,10 @@ def _data(e):
 def _props(v):
     """the nested user value is a list holding one dict; its abstraction is the token inside"""
     try:
-        if isinstance(v, list) and v and all(set(x) == {"identifier", "value"} for x in v):
+        if isinstance(v, list) and v and all("identifier" in x and "value" in x for x in v):
             tok = _val(v[0]["value"])
-            if len(v) == 2 and v[1] == {"identifier": "q", "value": "w"}:
+            if len(v) == 2 and v[1] == {"identifier": "q", "value": "w"} and \
+                    set(v[0]) <= {"identifier", "value", "original_identifier"}:
                 return tok
             return tok + "#" + str(len(v))
     except Exception:
@@ -650,6 +651,66 @@ def _q_query(reg, c):
     return []
 
 
+def _tmpfile(suffix):
+    import tempfile
+    base = os.environ.get("VERIF_SCRATCH") or tempfile.gettempdir()
+    fd, path = tempfile.mkstemp(suffix=suffix, prefix="verif-fmt-", dir=base)
+    os.close(fd)
+    return path
+
+
+def _x_edif_read(reg, c):
+    """render netlist n of the CURRENT abstract state with the independent writer, parse it with the real reader"""
+    import edif_text
+    st = project(reg)
+    text = edif_text.render(st, c["n"], c.get("opts", {}))
+    path = _tmpfile(".edf")
+    try:
+        with open(path, "w") as f:
+            f.write(text)
+        default_before = sdn.namespace_manager.default
+        new = sdn.parse(path)
+        reg.last_extra = {"policy_before": _val(default_before), "policy_after": _val(sdn.namespace_manager.default),
+                          "text_len": len(text)}
+    finally:
+        os.unlink(path)
+    return [("N", new)]
+
+
+def _x_edif_rt(reg, c):
+    """write netlist n with the real writer, read the file with the independent reader and the real reader"""
+    import edif_text
+    path = _tmpfile(".edf")
+    extra = {}
+    try:
+        sdn.compose(reg.get("N", c["n"]), path)
+        with open(path) as f:
+            text = f.read()
+        try:
+            extra["filecanon"] = edif_text.read_canon(text)
+            extra["file_readable"] = True
+        except Exception as e:
+            extra["file_readable"] = False
+            extra["file_error"] = "%s: %s" % (type(e).__name__, e)
+        try:
+            new = sdn.parse(path)
+            extra["reader_accepts"] = True
+        except CallTimeout:
+            raise
+        except Exception as e:
+            new = None
+            extra["reader_accepts"] = False
+            extra["reader_error"] = "%s: %s" % (type(e).__name__, str(e)[:200])
+        extra["policy_after"] = _val(sdn.namespace_manager.default)
+        if extra["policy_after"] != "DEFAULT":      # a failed parse may leave the policy switched (C15): do not
+            sdn.namespace_manager.default = "DEFAULT"   # let it distort the rest of this behaviour
+    finally:
+        if os.path.exists(path):
+            os.unlink(path)
+    reg.last_extra = extra
+    return [("N", new)] if new is not None else []
+
+
 def _x_compare(reg, c):
     from spydrnet.compare.compare_netlists import Comparer
     import io
@@ -675,7 +736,7 @@ def _x_clone(reg, c):
     return [(c["kind"], new)]
 
 
-QUERY_OPS = {"compare": _x_compare, "q": _q_query, "clone": _x_clone, "hq": _q_hq, "hcheck": _q_hcheck, "uniquify": _x_uniquify, "flatten": _x_flatten}
+QUERY_OPS = {"edif_read": _x_edif_read, "edif_rt": _x_edif_rt, "compare": _x_compare, "q": _q_query, "clone": _x_clone, "hq": _q_hq, "hcheck": _q_hcheck, "uniquify": _x_uniquify, "flatten": _x_flatten}
 
 
 class CallTimeout(Exception):
@@ -712,13 +773,15 @@ def execute(reg, c):
     for kind, obj in created:
         if obj is not None:
             reg.bind(kind, obj)
-    if c["op"] == "clone":
-        reg.last_ret = [reg.id_of(created[0][1], created[0][0])]
+    if c["op"] in ("clone", "edif_read", "edif_rt"):
+        reg.last_ret = [reg.id_of(created[0][1], created[0][0])] if created else []
         reg.last_info = []
     return "ok", ""
 
 
+import random as _random  # noqa: E402
 ACTIVE_LISTENERS = []
+PAD_COUNTER = [0]
 
 
 def fresh(listeners=""):
@@ -729,6 +792,10 @@ def fresh(listeners=""):
         ACTIVE_LISTENERS.pop().deregister_all_listeners()
     reg = Registry()
     reg.mirror = None
+    # vary the memory layout from one behaviour to the next: code that iterates Python sets of elements
+    # (reference sets, dependency sets) sees them in an order that depends on object addresses
+    PAD_COUNTER[0] += 1
+    reg._pad = [bytearray(40 + 8 * ((PAD_COUNTER[0] * 7 + j) % 9)) for j in range(PAD_COUNTER[0] % 11)]
     if listeners:
         import mirror
         for ch in listeners:
@@ -790,7 +857,11 @@ def project_mirror(reg):
 def build(calls, listeners=""):
     """replay a call history on fresh objects; returns the registry"""
     reg = fresh(listeners)
+    rnd = _random.Random(PAD_COUNTER[0])
     for c in calls:
+        # junk of varying size classes between the calls shifts the addresses of the elements created next
+        reg._pad.append([[0] * rnd.randint(0, 40), {}, set(), bytearray(rnd.randint(1, 300)), object()]
+                        [:rnd.randint(0, 5)])
         execute(reg, c)
         # creating calls may create more than they return (pins of a new port, a whole clone ...):
         # adopt them in the canonical walk order right away so ids follow creation order
